@@ -1,5 +1,6 @@
-(* Revisions.v — the two named revisions of the database model: the code of /repo after all
-   fix: commits (every flag on) and the originally pinned code (every flag off). *)
+(* Revisions.v — the two revisions of the modelled code that the theorems talk about:
+   rv_fixed  = /repo with all the fix: commits (every flag on),
+   rv_pinned = the pinned tree before them (every flag off). *)
 From Agdb Require Import DbModel.
 
 Definition rv_fixed : revision :=
